@@ -39,7 +39,10 @@ KEY_FILES = {'building.py', 'history.py', 'signatures.py', 'reraised_exception.p
 # files whose lines are scheduling points: None = every file of fiddle/_src (thorough tier)
 # (thorough: the key files plus the modules the programs spend their time in; every file of fiddle/_src
 # multiplies the number of steps per schedule by ten and did not finish in half an hour)
-WATCH = KEY_FILES if common.tier() == 'quick' else KEY_FILES | {'config.py', 'daglish.py', 'partial.py', 'tagging.py'}
+# daglish.py (process-wide traverser registries; one of the property's anchors) is watched in both tiers: its
+# lines are many, so preemption points there are stratified by source line (one per distinct executed line)
+LINE_FILES = {'daglish.py'}
+WATCH = KEY_FILES | LINE_FILES if common.tier() == 'quick' else KEY_FILES | {'config.py', 'daglish.py', 'partial.py', 'tagging.py'}
 
 
 def _build_guard_holder():
@@ -108,7 +111,7 @@ class Sched:
   def _tracer(self, i):
     def local(frame, event, arg):
       if event == 'line':
-        self._where[i] = os.path.basename(frame.f_code.co_filename)
+        self._where[i] = f'{os.path.basename(frame.f_code.co_filename)}:{frame.f_lineno}'
         self.pause(i)
       return local
     def glob(frame, event, arg):
@@ -424,13 +427,21 @@ def main():
       # lines are sampled in the quick tier
       key = KEY_FILES
       files = rec.get('step_files', [])
-      keypts = [s_ for s_ in range(1, steps) if s_ < len(files) and files[s_] in key]
-      other = [s_ for s_ in range(1, steps) if s_ not in set(keypts)]
+      fname = lambda s_: str(files[s_]).split(':')[0]
+      keypts = [s_ for s_ in range(1, steps) if s_ < len(files) and fname(s_) in key]
+      # one preemption point per distinct executed source line of the line-stratified files
+      seen_lines, linepts = set(), []
+      for s_ in range(1, min(steps, len(files))):
+        if fname(s_) in LINE_FILES and files[s_] not in seen_lines:
+          seen_lines.add(files[s_])
+          linepts.append(s_)
+      taken = set(keypts) | set(linepts)
+      other = [s_ for s_ in range(1, steps) if s_ not in taken]
       if len(other) > (6 if quick else 20):
         other = rng.sample(other, 6 if quick else 20)
       if len(keypts) > (40 if quick else 120):
         keypts = rng.sample(keypts, 40 if quick else 120)
-      pts = sorted(set(keypts) | set(other))
+      pts = sorted(set(keypts) | set(other) | set(linepts))
       for s_ in pts:
         jobs.append((tuple(rec['names']), 'preempt', [[s_, 1]]))
         if not quick:
